@@ -62,6 +62,9 @@ def decorate(rng, decls, depth=0, counter=None):
         elif d.typ in ('int', 'float', 'bool', 'str') and rng.random() < 0.25:
             d.comment = 'declared note %d' % counter[0]
             counter[0] += 1
+        if d.typ in ('int', 'float', 'bool', 'str') and not d.is_list and not d.simple and rng.random() < 0.12:
+            # the default given as text; empty text = the option starts without a value
+            d.dparsed = rng.choice(['', '', {'int': '0x10', 'float': '2.5', 'bool': 'yes', 'str': '"text default"'}[d.typ]])
     if rng.random() < 0.5:
         counter[0] += 1
         decls.append(D('pt%d_%d' % (depth, counter[0]), 'ptr', rng.choice([0, F_LIST]) if False else 0, None, cbs='pf', dparsed='ptrdefault%d' % counter[0]))
@@ -228,6 +231,7 @@ def interesting(decls):
 def judge(spec, events, death):
     v = Verdict()
     v.nontrivial = interesting(spec['decls'])
+    decls = [D.from_json(j) for j in spec['decls']]
     if death is not None:
         kind = death['kind']
         if spec['kind'] == 'oom' and kind == 'abort-in-init-defaults':
@@ -301,6 +305,15 @@ def judge(spec, events, death):
         if g[0] == 'sib-base':
             d = [e for e in g[1:] if e.get('ev') == 'dumpsec']
             sib_base = json.dumps(d[0]['tree'], sort_keys=True) if d else None
+            # an instance created long after cfg_init has the declared sub-options and defaults (reference: the declaration itself)
+            sibd = first_multi_titled(decls)
+            if d and d[0]['tree'] is not None and sibd is not None:
+                dd = sibd[1]
+                want = schema.MSec(dd.name, dd.sub, 'sibB', bool(dd.flags & F_KEYSTRVAL))
+                diffs = schema.diff_sec(want, d[0]['tree'], check_mod=False, ptr_len=False)       # (pointer defaults come from the application's parse callback: not modelled)
+                v.notes['later_instance_default_checks'] = v.notes.get('later_instance_default_checks', 0) + 1
+                if diffs:
+                    v.bad('later-instance-defaults', 'a section instance added after cfg_init does not hold the declared sub-options / defaults: %s' % diffs[:3])
         elif g[0] == 'sib-other' and sib_base is not None:
             d = [e for e in g[1:] if e.get('ev') == 'dumpsec']
             if d and json.dumps(d[0]['tree'], sort_keys=True) != sib_base:
